@@ -427,7 +427,14 @@ func NewRunner(w *simrt.World, cfg *Cfg) *Runner {
 			r.OnAsync(ev)
 		}
 	}
-	r.C = otter.Must(o)
+	func() {
+		defer func() {
+			if p := recover(); p != nil {
+				w.AbortSetup(fmt.Sprintf("cache construction panicked with the harness's configuration %+v: %v", *cfg, p))
+			}
+		}()
+		r.C = otter.Must(o)
+	}()
 	return r
 }
 
